@@ -317,7 +317,54 @@ def build_system(pair, served, idgen, strict, hier=False):
                 return to_text(loop.run(disp.dispatch(text)))
             finally:
                 loop.close()
-    return make_client(ckind, responder, id_gen_impl=IDGENS[idgen](), strict=strict, **({'error_cls': Hier07} if hier else {}))
+    extra = {}
+    if hier == 'reqcls':
+        extra['request_class'] = TokenRequest
+    elif hier:
+        extra['error_cls'] = Hier07
+    return make_client(ckind, responder, id_gen_impl=IDGENS[idgen](), strict=strict, **extra)
+
+
+class TokenRequest(Request):
+    """the application's request class: every request object it puts on the wire carries an extension member"""
+    def to_json(self):
+        return dict(super().to_json(), token='t0k3n')
+
+
+def run_reqcls(case, rec):
+    """a client configured with its own request_class: every notation that lets the client build the request (call, dunder, proxy, notify,
+    and the batch notations add / dunder / proxy / getitem with and without notifications) puts objects of THAT class on the wire"""
+    pair = tuple(case['pair'])
+    obs = []
+    for notation in ['call', 'dunder', 'proxy', 'notify']:
+        served = Served()
+        client = build_system(pair, served, 'sequential', True, hier='reqcls')
+        out = classify(drive(pair[0], single_thunk(client, notation, 'echo', (1,), {}, None)))
+        rec.transitions += 1
+        docs = [json.loads(t[0]) for t in client.sent]
+        objs = [o for d in docs for o in (d if isinstance(d, list) else [d])]
+        ok = bool(objs) and all(o.get('token') == 't0k3n' for o in objs) and len(served.log) == 1 and out[0] == 'ok'
+        if not ok:
+            rec.violation('C07:single:the configured request class is not used for a %s' % ('notification' if notation == 'notify' else 'call'), dict(case, notation=notation),
+                          expected='every request object built by TokenRequest', observed=dict(documents=docs, outcome=out, executed=len(served.log)))
+        obs.append(ok)
+    for notation in ['add', 'dunder', 'proxy', 'getitem', 'notify+getitem']:
+        for elems in ([('echo', (1,), {}, True), ('echo', (2,), {}, False)], [('echo', (1,), {}, False), ('echo', (2,), {}, False)], [('echo', (1,), {}, True), ('echo', (2,), {}, True)]):
+            if notation == 'getitem' and not all(c for _, _, _, c in elems):
+                continue
+            served = Served()
+            client = build_system(pair, served, 'sequential', True, hier='reqcls')
+            out = classify(drive(pair[0], lambda: batch_thunk(client, notation, elems)()))
+            rec.transitions += 1
+            docs = [json.loads(t[0]) for t in client.sent]
+            objs = [o for d in docs for o in (d if isinstance(d, list) else [d])]
+            ok = len(objs) == len(elems) and all(o.get('token') == 't0k3n' for o in objs) and len(served.log) == len(elems)
+            if not ok:
+                rec.violation('C07:batch:the configured request class is not used for every element of a batch', dict(case, notation=notation, elems=[list(e) for e in elems]),
+                              expected='every request object built by TokenRequest', observed=dict(documents=docs, outcome=out, executed=len(served.log)))
+            obs.append(ok)
+    rec.nontrivial_n += 1
+    return tuple(obs)
 
 
 def drive(ckind, thunk):
@@ -634,6 +681,8 @@ def drive_batch(ckind, client, notation, elems):
 def gen_cases(ctx):
     pairs = [('sync', 'sync'), ('sync', 'async'), ('async', 'sync'), ('async', 'async')]
     for pair in pairs:
+        yield dict(part='reqcls', pair=pair)
+    for pair in pairs:
         for idgen in IDGENS:
             for strict in (True, False):
                 for method in ('echo', 'terr', 'ferr', 'herr', 'uerr', 'lerr', 'boom', '_echo', '__x', 'deca', 'decb', 'bump', 'hist'):
@@ -683,7 +732,7 @@ def gen_cases(ctx):
 def run_case(case, rec):
     from mc.core import Recorder
     r = Recorder()
-    obs = run_single(case, r) if case['part'] == 'single' else run_batch(case, r)
+    obs = run_reqcls(case, r) if case['part'] == 'reqcls' else (run_single(case, r) if case['part'] == 'single' else run_batch(case, r))
     r.states += 1
     r.traces += 1
     r.counters[case['part']] += 1
